@@ -9,9 +9,10 @@ Where things are:
   ConnC04Inv2.lean   `HW`: well-formed handler lists
   ConnC04Inv3.lean   state preservation, quiet/loud stanza names, the branches of `_handle_sm`
   ConnC04Inv4.lean   `B`: disconnected ⇒ stream management off; consecutive numbers unless an answer is pending
+  ConnC04Inv5.lean   `Rel`: nothing retained is lost
 -/
 import Strophe.Lemmas.ConnC04Inv1
-import Strophe.Lemmas.ConnC04Inv4
+import Strophe.Lemmas.ConnC04Inv5
 
 namespace Strophe.Lemmas.ConnC04
 open Strophe Strophe.Conn
@@ -50,13 +51,42 @@ theorem retained_were_written (jid pass : Option Bytes) (cert : Bool) (flags : N
 /-- NOTHING IS LOST: a retained element leaves the retained queue only because the server reported a
     count `h` beyond its number (in `<a/>`, `<resumed/>` or `<failed/>`), or because it was put back
     into the send queue for retransmission; true of every reachable state and every operation except
-    the release of the connection object -/
-theorem retained_only_released_by_h (c : Conn) (op : Op)
+    the release of the connection object.
+
+    First formulation: for ARBITRARY `c` (with a fourth alternative "written in this step", which never
+    occurs).  That is false of two kinds of unreachable states: no XEP-0198 record yet (`hasSm = false`)
+    but a non-empty retained queue, and a `_handle_features` handler registered without its name
+    filter next to the pending XEP-0198 handler (it disconnects in the middle of the dispatch of
+    `<resumed/>`, after which `_sm_queue_resend` drops everything).  `retained_only_released_by_h_step`
+    is the step-level form under the well-formedness hypotheses that exclude them. -/
+theorem retained_only_released_by_h (jid pass : Option Bytes) (cert : Bool) (flags : Nat) (ops : List Op)
+    (op : Op) (x : UInt32 × QElem) :
+    let c := exec (fresh jid pass cert flags) ops
+    x ∈ c.sm.queue → (match op with | .release => False | _ => True) →
+    x ∈ (step c op).sm.queue ∨
+    (∃ hv, carriesH op hv ∧ x.1.toNat < hv) ∨
+    (∃ e ∈ (step c op).queue, e.item = x.2.item ∧ e.owner = x.2.owner ∧ e.snap = x.2.snap) := by
+  intro c hx hop
+  have hk := K_reach jid pass cert flags ops
+  have hsm : c.hasSm = true := by
+    cases h : c.hasSm with
+    | true => rfl
+    | false =>
+      have := (hk.2.hs h).1
+      rw [show c.sm.queue = [] from this] at hx
+      cases hx
+  exact released_step c hk.1 hsm op x hx hop
+
+theorem retained_only_released_by_h_step (c : Conn) (hw : HW c) (hsm : c.hasSm = true) (op : Op)
     (x : UInt32 × QElem) (hx : x ∈ c.sm.queue) (hop : match op with | .release => False | _ => True) :
     x ∈ (step c op).sm.queue ∨
     (∃ hv, carriesH op hv ∧ x.1.toNat < hv) ∨
-    (∃ e ∈ (step c op).queue, e.item = x.2.item ∧ e.owner = x.2.owner ∧ e.snap = x.2.snap) ∨
-    (∃ r ∈ ((step c op).tx.drop c.tx.length), r.item = x.2.item ∧ r.owner = x.2.owner) := by
-  sorry
+    (∃ e ∈ (step c op).queue, e.item = x.2.item ∧ e.owner = x.2.owner ∧ e.snap = x.2.snap) :=
+  released_step c hw hsm op x hx hop
+
+/-- the well-formedness hypothesis of the step-level form holds in every reachable state -/
+theorem handlers_well_formed (jid pass : Option Bytes) (cert : Bool) (flags : Nat) (ops : List Op) :
+    HW (exec (fresh jid pass cert flags) ops) :=
+  HW_reach jid pass cert flags ops
 
 end Strophe.Lemmas.ConnC04
